@@ -1412,3 +1412,148 @@ Proof.
     destruct (IHd g choices c1 c2 d (Mce_ok _ _ _ _ _ R1) E2 Hmc) as (d1 & Hd1 & R2).
     injection H as <-. exists d. split; [lia|]. exact (mc_switch d d1 c c1 c2 ps Hc R1 R2 Hd1).
 Qed.
+
+Lemma mp_stmt_step : forall f, MP_expr f -> MP_sexpr f -> MP_stmt (S f).
+Proof.
+  intros f IHe IHs g s c c' d Hc H Hm Hnp. destruct s as [e|e]; cbn [moded_stmt] in Hm.
+  - rewrite compile_stmt_return_eq in H.
+    destruct (compile_expr f e c) as [[] c1| | |] eqn:E1; try discriminate. cbn [cbind] in H.
+    injection H as <-. pose proof (IHe g e c c1 d Hc E1 Hm) as R1.
+    exists d. split; [lia|]. eapply Mx_trans; [exact Hc|exact R1|].
+    apply Mx_return; [exact (Mx_ok _ _ _ _ R1)|lia].
+  - rewrite compile_stmt_expr_eq in H.
+    apply (IHs g e c c' d Hc H Hm). intros n op E. subst e. eapply Hnp. reflexivity.
+Qed.
+
+(* `x` and `++` as two statements *)
+Lemma postfix_stmt_Mx : forall f n op c c' d, cstate_ok c ->
+  compile_stmt f (SExpr (EPostfix n op)) c = COk tt c' -> Mx (d + 1) d c c'.
+Proof.
+  intros f n op c c' d Hc H. destruct f as [|f]; [discriminate|].
+  rewrite compile_stmt_expr_eq in H. destruct f as [|f]; [discriminate|].
+  cbn [compile_expr] in H. destruct op; try discriminate;
+    destruct (add_const (VStr n) c) as [i c1] eqn:E; injection H as <-.
+  - eapply Mx_eq; [apply (Mx_add OpDec (VStr n) c i c1 (d + 1) 1 0); try reflexivity; [exact Hc|exact E|lia]|lia].
+  - eapply Mx_eq; [apply (Mx_add OpInc (VStr n) c i c1 (d + 1) 1 0); try reflexivity; [exact Hc|exact E|lia]|lia].
+Qed.
+
+Lemma ident_stmt_Mx : forall f n c c' d, cstate_ok c ->
+  compile_stmt f (SExpr (EIdent n)) c = COk tt c' -> Mx d (d + 1) c c'.
+Proof.
+  intros f n c c' d Hc H. destruct f as [|f]; [discriminate|].
+  rewrite compile_stmt_expr_eq in H. destruct f as [|f]; [discriminate|].
+  cbn [compile_expr] in H. destruct (add_const (VStr n) c) as [i c1] eqn:E. injection H as <-.
+  eapply Mx_eq; [apply (Mx_add OpLookup (VStr n) c i c1 d 0 1); try reflexivity; [exact Hc|exact E|lia]|lia].
+Qed.
+
+Lemma postfix_paired_cases : forall s b, postfix_paired (s :: b) = true ->
+  (forall n op, s <> SExpr (EPostfix n op)) /\
+  ((exists n n' op rest, s = SExpr (EIdent n) /\ b = SExpr (EPostfix n' op) :: rest /\ postfix_paired rest = true) \/
+   postfix_paired b = true).
+Proof.
+  intros s b H. destruct s as [e|e].
+  - split; [intros; discriminate|right; exact H].
+  - destruct e; try (split; [intros; discriminate|right; exact H]).
+    + (* EIdent *)
+      split; [intros; discriminate|].
+      destruct b as [|[e'|e'] rest]; try (right; exact H).
+      destruct e'; try (right; exact H).
+      left. eexists _, _, _, _. split; [reflexivity|split; [reflexivity|exact H]].
+    + (* EPostfix *) discriminate.
+Qed.
+
+Lemma mp_stmts_step : forall f, MP_stmt f -> MP_stmts f -> MP_stmts (S f).
+Proof.
+  intros f IHs IHb g b c c' d Hc H Hm. split.
+  - intro Hp. destruct b as [|s b].
+    + rewrite compile_block_nil_eq in H. injection H as <-. exists d. split; [lia|apply Mx_refl; exact Hc].
+    + rewrite compile_block_cons_eq in H. cbn [forallb] in Hm. apply andb_true_iff in Hm. destruct Hm as (Hm1 & Hm2).
+      destruct (compile_stmt f s c) as [[] c1| | |] eqn:E1; try discriminate. cbn [cbind] in H.
+      destruct (postfix_paired_cases s b Hp) as (Hnp & [(n & n' & op & rest & -> & -> & Hr)|Hb]).
+      * pose proof (ident_stmt_Mx f n c c1 d Hc E1) as R1.
+        destruct (IHb g _ c1 c' d (Mx_ok _ _ _ _ R1) H Hm2) as (_ & K).
+        destruct (K n' op rest eq_refl Hr) as (dout & Hd & R2).
+        exists dout. split; [exact Hd|]. eapply Mx_trans; [exact Hc|exact R1|exact R2].
+      * destruct (IHs g s c c1 d Hc E1 Hm1 Hnp) as (d1 & Hd1 & R1).
+        destruct (IHb g b c1 c' d1 (Mx_ok _ _ _ _ R1) H Hm2) as (K & _).
+        destruct (K Hb) as (dout & Hd & R2).
+        exists dout. split; [lia|]. eapply Mx_trans; [exact Hc|exact R1|exact R2].
+  - intros n op rest -> Hr.
+    rewrite compile_block_cons_eq in H. cbn [forallb] in Hm. apply andb_true_iff in Hm. destruct Hm as (Hm1 & Hm2).
+    destruct (compile_stmt f (SExpr (EPostfix n op)) c) as [[] c1| | |] eqn:E1; try discriminate. cbn [cbind] in H.
+    pose proof (postfix_stmt_Mx f n op c c1 d Hc E1) as R1.
+    destruct (IHb g rest c1 c' d (Mx_ok _ _ _ _ R1) H Hm2) as (K & _).
+    destruct (K Hr) as (dout & Hd & R2).
+    exists dout. split; [exact Hd|]. eapply Mx_trans; [exact Hc|exact R1|exact R2].
+Qed.
+
+Lemma mp_block_of_stmts : forall f, MP_stmts f -> MP_block f.
+Proof.
+  intros f IH g b c c' d Hc H Hm. destruct (moded_block_inv _ _ Hm) as (g' & -> & Hf & Hp).
+  destruct (IH g' b c c' d Hc H Hf) as (K & _). exact (K Hp).
+Qed.
+
+Lemma mp_case_exprs_step : forall f, MP_expr f -> MP_block f -> MP_case_exprs f -> MP_case_exprs (S f).
+Proof.
+  intros f IHe IHb IHce g v es blk patches c po c' d Hc H Hv Hes Hblk. destruct es as [|e es'].
+  - rewrite compile_case_exprs_nil_eq in H. injection H as <- <-. apply Mce_nil. exact Hc.
+  - rewrite compile_case_exprs_cons_eq in H. cbn [forallb] in Hes. apply andb_true_iff in Hes. destruct Hes as (He & Hes).
+    destruct (compile_expr f v c) as [[] c1| | |] eqn:E1; try discriminate. cbn [cbind] in H.
+    pose proof (IHe g v c c1 d Hc E1 Hv) as R1.
+    destruct (compile_expr f e c1) as [[] c2| | |] eqn:E2; try discriminate. cbn [cbind] in H.
+    pose proof (IHe g e c1 c2 (d + 1) (Mx_ok _ _ _ _ R1) E2 He) as R2. cbv zeta in H.
+    assert (Hc4 : cstate_ok (emit1' OpJumpIfFalse 9999 (emit0 OpCase c2))).
+    { eapply emits_ok. apply emits_emit1. eapply emits_ok. apply emits_emit0. exact (Mx_ok _ _ _ _ R2). }
+    destruct (compile_block f blk _) as [[] c5| | |] eqn:E5 in H; try discriminate. cbn [cbind] in H.
+    destruct (IHb g blk _ c5 d Hc4 E5 Hblk) as (d1 & Hd1 & R5).
+    match type of H with compile_case_exprs f v es' blk _ ?c7 = _ =>
+      assert (Hc7 : cstate_ok c7);
+      [apply patch_ok; eapply emits_ok; apply emits_emit1; exact (Mx_ok _ _ _ _ R5)|] end.
+    pose proof (IHce g v es' blk _ _ po c' d Hc7 H Hv Hes Hblk) as R7.
+    exact (mc_case_exprs_cons d d1 patches po c c1 c2 c5 c' Hc R1 R2 R5 Hd1 R7).
+Qed.
+
+Lemma mp_cases_step : forall f, MP_case_exprs f -> MP_cases f -> MP_cases (S f).
+Proof.
+  intros f IHce IHc g v chs patches c po c' d Hc H Hv Hm. destruct chs as [|[[df es] blk] rest].
+  - rewrite compile_cases_nil_eq in H. injection H as <- <-. apply Mce_nil. exact Hc.
+  - cbn [forallb] in Hm. apply andb_true_iff in Hm. destruct Hm as (Hm1 & Hm2).
+    unfold moded_choice in Hm1. cbn [fst snd] in Hm1. apply andb_true_iff in Hm1. destruct Hm1 as (Hes & Hblk).
+    destruct df.
+    + rewrite compile_cases_default_eq in H. exact (IHc g v rest patches c po c' d Hc H Hv Hm2).
+    + rewrite compile_cases_arm_eq in H.
+      destruct (compile_case_exprs f v es blk patches c) as [p1 c1| | |] eqn:E1; try discriminate.
+      cbn [cbind] in H.
+      pose proof (IHce g v es blk patches c p1 c1 d Hc E1 Hv Hes Hblk) as R1.
+      pose proof (IHc g v rest p1 c1 po c' d (Mce_ok _ _ _ _ _ R1) H Hv Hm2) as R2.
+      exact (Mce_trans d c c1 c' patches p1 po Hc R1 R2).
+Qed.
+
+Lemma mp_defaults_step : forall f, MP_block f -> MP_defaults f -> MP_defaults (S f).
+Proof.
+  intros f IHb IHd g chs c c' d Hc H Hm. destruct chs as [|[[df es] blk] rest].
+  - rewrite compile_defaults_nil_eq in H. injection H as <-. exists d. split; [lia|apply Mx_refl; exact Hc].
+  - cbn [forallb] in Hm. apply andb_true_iff in Hm. destruct Hm as (Hm1 & Hm2).
+    unfold moded_choice in Hm1. cbn [fst snd] in Hm1. apply andb_true_iff in Hm1. destruct Hm1 as (Hes & Hblk).
+    destruct df.
+    + rewrite compile_defaults_default_eq in H.
+      destruct (compile_block f blk c) as [[] c1| | |] eqn:E1; try discriminate. cbn [cbind] in H.
+      destruct (IHb g blk c c1 d Hc E1 Hblk) as (d1 & Hd1 & R1).
+      destruct (IHd g rest c1 c' d1 (Mx_ok _ _ _ _ R1) H Hm2) as (d2 & Hd2 & R2).
+      exists d2. split; [lia|]. exact (Mx_trans _ _ _ _ _ _ Hc R1 R2).
+    + rewrite compile_defaults_skip_eq in H. exact (IHd g rest c c' d Hc H Hm2).
+Qed.
+
+Lemma moded_all_fuel : forall fuel,
+  MP_expr fuel /\ MP_exprs fuel /\ MP_pairs fuel /\ MP_sexpr fuel /\ MP_stmt fuel /\ MP_stmts fuel /\
+  MP_case_exprs fuel /\ MP_cases fuel /\ MP_defaults fuel.
+Proof.
+  induction fuel as [|f (IHe & IHl & IHp & IHx & IHs & IHb & IHce & IHc & IHd)].
+  - repeat split; intro; intros; discriminate.
+  - pose proof (mp_block_of_stmts f IHb) as IHbb.
+    pose proof (mp_expr_step f IHe IHl IHp) as He.
+    split; [exact He|]. split; [exact (mp_exprs_step f IHe IHl)|]. split; [exact (mp_pairs_step f IHe IHp)|].
+    split; [exact (mp_sexpr_step f IHe He IHbb IHc IHd)|]. split; [exact (mp_stmt_step f IHe IHx)|].
+    split; [exact (mp_stmts_step f IHs IHb)|]. split; [exact (mp_case_exprs_step f IHe IHbb IHce)|].
+    split; [exact (mp_cases_step f IHce IHc)|exact (mp_defaults_step f IHbb IHd)].
+Qed.
